@@ -451,6 +451,19 @@ class Summaries:
                     v = mk("seq_map_t", item, r[0], rng)
                     I.lengths[v] = n
                     return v
+        if tp == "core::iter::Iterator::all" and len(a) == 2 and a[0].op == "zip" and a[1].op == "closure":
+            # a.iter().zip(b.iter()).all(|(x, y)| x == y) over two sequences of the same statically known length is a == b
+            X, Y = a[0].args[0], a[0].args[1]
+            while X.op == "iter":
+                X = X.args[0]
+            while Y.op == "iter":
+                Y = Y.args[0]
+            nx, ny = I.length_of(X), I.length_of(Y)
+            if nx is not None and nx == ny:
+                sx, sy = I.fresh("zx"), I.fresh("zy")
+                r = I.apply_fn(a[1], [mk("tuple", sx, sy)], ctx.e, ctx.env, ctx.fr)
+                if r is not None and (r[0] is eq(sx, sy) or r[0] is eq(sy, sx)):
+                    return eq(X, Y)
         if tp == "core::iter::Iterator::flat_map":
             item = mk("item_of", a[0])
             r = I.apply_fn(a[1], [item], ctx.e, ctx.env, ctx.fr)
@@ -610,6 +623,11 @@ class Summaries:
         if tp == "core::convert::From::from" and False:
             return NotImplemented
         # equality on builtin aggregates
+        if tp in ("core::cmp::PartialEq::eq", "core::cmp::PartialEq::ne") and len(a) == 2 and not (ctx.c.get("inst") or {}).get("local") \
+                and all(isinstance(x, Tm.T) and x.op == "variant" and len(x.args) == 1 for x in a):
+            # two field-less variants of an external enum with a derived PartialEq (AllocationMode, Ordering, ...): same variant or not
+            r_ = TRUE if a[0].args[0] == a[1].args[0] else FALSE
+            return r_ if name == "eq" else not_(r_)
         if tp in ("core::cmp::PartialEq::eq", "core::cmp::PartialEq::ne") and ("core::array" in key or "core::cmp::impls" in key or "BigInt" in key or s0[0] in ("int", "bool")):
             inner = ctx.arg_ty(0)
             r = self.eq_dispatch(ctx, a[0], a[1], inner)
